@@ -91,6 +91,11 @@ for await (const line of rl) {
   const res = { id: req.id };
   if (req.v8) { const [ok, err] = v8ok(req.src); res.ok = ok; res.err = err; }
   if (req.toks) { try { const [mode, t] = tokens(req.src); res.toks = t; res.mode = mode; } catch (e) { res.tokErr = String(e.message); } }
+  if (req.run) { // run closed programs in fresh contexts, report the final value of result (or the error)
+    res.runs = req.run.map(code => { try { const ctx = vm.createContext({});
+      vm.runInContext(code, ctx, { timeout: 500 }); return 'v:' + JSON.stringify(vm.runInContext('typeof result === "undefined" ? null : result', ctx)); }
+      catch (e) { return 'e:' + String(e && e.name); } });
+  }
   if (req.strs) { // values of string literals: [[literal, ...]] -> UTF-16 code units as hex
     res.vals = req.strs.map(s => { try { const v = (0, eval)('(' + s + ')'); if (typeof v !== 'string') return null;
       let o = ''; for (let j = 0; j < v.length; j++) o += v.charCodeAt(j).toString(16).padStart(4, '0'); return o; } catch (e) { return null; } });
@@ -115,6 +120,7 @@ type c09JsNodeRes struct {
 	Mode   string
 	TokErr string
 	Vals   []*string
+	Runs   []string
 }
 
 func c09JsStartNode() (*c09JsNode, error) {
@@ -1434,6 +1440,9 @@ func c09JsStages(c *Ctx) error {
 	if err := c09JsStmtModelStage(c); err != nil {
 		return err
 	}
+	if err := c09JsEvalStage(c, node, openSig); err != nil {
+		return err
+	}
 	for _, k := range known {
 		if k.Status != "open" {
 			continue
@@ -1701,9 +1710,129 @@ func c09JsStmtModelStage(c *Ctx) error {
 		if string(items[2]) == out {
 			st.Tag("model=impl")
 		} else {
-			st.Tag("model≠impl (judged by C01)")
+			st.Tag("model≠impl")
+			c.R.Add(h.Finding{Stage: st.Name, Kind: "diff", What: "the real printer writes other bytes than the statement printer model for this program (spacing / semicolon decision changed?)", Input: h.Q([]byte(p.src)), Impl: h.Q([]byte(out)), Model: h.Q(items[2])})
 		}
 	}
 	st.End()
 	return nil
+}
+
+// ---------- closed hazard programs: the output must compute what the input computes ----------
+
+func c09JsClosedProgram(r *h.RNG) string {
+	atom := func() string {
+		return r.Pick([]string{"a", "b", "c", "2", "3", "10", "1.5", ".5", "5..valueOf()", "1e3", "0x10", "/b/.source.length", "/ab/g.source.length", "'s'.length", "`t${a}`.length", "[a,b].length", "(a)", "o.p", "o['q']", "f(a)", "typeof a", "void 0", "+b", "-b", "- -b", "+ +b", "!a", "!--k", "~a", "a++", "b--", "++a", "--b", "(a,b)"})
+	}
+	op := func() string {
+		return r.Pick([]string{"+", "-", "*", "/", "%", "<", ">", "<=", ">=", "==", "!=", "===", "<<", ">>", ">>>", "&", "|", "^", "&&", "||", "??", " in ", " instanceof ", "**", ",", "+ +", "- -", "+ ++", "- --", "/ /b/.source.length*", "< !--", "-- >"[:0] + ">", "- ", "+ "})
+	}
+	var parts []string
+	n := 1 + r.Intn(4)
+	for i := 0; i < n; i++ {
+		e := atom()
+		for k := r.Intn(4); k > 0; k-- {
+			o := op()
+			rhs := atom()
+			if o == " in " {
+				rhs = "o"
+			} else if o == " instanceof " {
+				rhs = "Object"
+			} else if o == "**" {
+				e = "(" + e + ")"
+			} else if o == "??" {
+				e = "(" + e + ")"
+				rhs = "(" + rhs + ")"
+			}
+			sep := ""
+			if last := e[len(e)-1]; (last == '+' || last == '-') && (o[0] == '+' || o[0] == '-') || last == '-' && o[0] == '>' {
+				sep = " "
+			}
+			e = e + sep + o
+			if f := rhs[0]; (o[len(o)-1] == '+' && f == '+') || (o[len(o)-1] == '-' && f == '-') || (o[len(o)-1] == '/' && f == '/') || (o[len(o)-1] == '<' && f == '!') {
+				e += " "
+			}
+			e += rhs
+		}
+		parts = append(parts, e)
+	}
+	stmts := "var a=3,b=4,c=5,k=7,o={p:1,q:2,s:3},f=function(x){return x+1},result=[];"
+	for _, p := range parts {
+		switch r.Intn(5) {
+		case 0:
+			stmts += "if(" + p + ")result.push(1);else result.push(2);"
+		case 1:
+			stmts += "result.push(function(){return " + p + "}());"
+		case 2:
+			stmts += "result.push(typeof(" + p + "));"
+		default:
+			stmts += "result.push(" + p + ");"
+		}
+	}
+	return stmts + "result.push(a,b,c,k)"
+}
+
+func c09JsEvalStage(c *Ctx, node *c09JsNode, openSig map[string]string) error {
+	st := c.R.StartStage("c09-js-eval", "closed programs built from the token-gluing hazards (`+ +`, `- --`, `/ /re/`, `< !--`, `a-- >b`, `typeof x`, `x in o`, `5..valueOf()`, `.5`, templates) over fixed numbers, run in a fresh V8 context before and after the real js.Minifier (random options): the final `result` must be the same — a glued or split token that still parses changes it; non-trivial = the input runs without error and the output differs from the input")
+	n := c.N(800, 40000)
+	type ec struct {
+		src, out, cfg string
+	}
+	var cases []ec
+	for k := 0; k < n; k++ {
+		r := c.Rng.Fork()
+		src := c09JsClosedProgram(r)
+		o, cfg := c09JsOpts(r)
+		out, err, crash := c09JsMinify(o, []byte(src))
+		if crash != "" {
+			c.R.Add(h.Finding{Stage: st.Name, Kind: "crash", What: crash, Input: h.Q([]byte(src)), Config: cfg})
+			continue
+		}
+		if err != nil {
+			st.Count(src, false)
+			st.Tag("rejected-by-minifier")
+			continue
+		}
+		cases = append(cases, ec{src, string(out), cfg})
+	}
+	for lo := 0; lo < len(cases); lo += 200 {
+		hi := lo + 200
+		if hi > len(cases) {
+			hi = len(cases)
+		}
+		var codes []string
+		for _, cs := range cases[lo:hi] {
+			codes = append(codes, cs.src, cs.out)
+		}
+		res, err := node.ask(map[string]any{"id": lo, "run": codes})
+		if err != nil {
+			return err
+		}
+		if len(res.Runs) != len(codes) {
+			return fmt.Errorf("c09-js-eval: %d results for %d programs", len(res.Runs), len(codes))
+		}
+		for i, cs := range cases[lo:hi] {
+			a, b := res.Runs[2*i], res.Runs[2*i+1]
+			if !strings.HasPrefix(a, "v:") {
+				st.Count(cs.src, false)
+				st.Tag("input-throws")
+				continue
+			}
+			st.Count(cs.src+" "+cs.cfg, cs.src != cs.out)
+			if a == b {
+				st.Tag("same-result")
+				continue
+			}
+			c.R.Add(h.Finding{Stage: st.Name, Kind: "fail", What: "the output computes something else than the input (token glued or split?)", Input: h.Q([]byte(cs.src)), Hex: h.HexS(cs.src), Config: cs.cfg, Impl: h.Q([]byte(cs.out)) + " input: " + trunc2(a) + " output: " + trunc2(b)})
+		}
+	}
+	st.End()
+	return nil
+}
+
+func trunc2(s string) string {
+	if len(s) > 200 {
+		return s[:200] + "…"
+	}
+	return s
 }
